@@ -13,6 +13,7 @@ ID = "C15"
 LEAN_TARGETS = ["PV.Props.C15"]
 # T-D: functions translated from the source by harness/pytrans.py, proved equal to the model (DESIGN section 0)
 EQUIV = {"PV.Equiv.TranslatedDb": ["init_eq", "dbExecute_create", "updateResult_updateOp", "update_db_eq"]}
+EQUIV.update({"PV.Equiv.TranslatedDbExport": ["loop_eq", "write_tle_txt_eq"], "PV.Equiv.TranslatedFetchRun": ["delivery", "run_eq", "updatesOf_dict"]})      # T-D
 RULE = ("random operation histories of length <= 12 over {update(tle, source), crashed update, export(write_always, "
         "write_name), close+reopen} with 1-4 configured platforms plus unconfigured satellites, epochs drawn from a "
         "cluster around one instant (whole second, +-1 us, .100000, +1 s, previous second .999999, other day/year) so "
